@@ -567,7 +567,16 @@ class CCodeGenerator:
 
     def gen_expression_statement(self, statement):
         """Generate code for an expression statement"""
-        self.gen_expr(statement.expression, rvalue=True)
+        expr = statement.expression
+        if (
+            isinstance(expr, expressions.BinaryOperator)
+            and expr.op == "="
+            and expr.a.typ.is_struct
+        ):
+            # No need to load the value of the assignment:
+            self.gen_struct_assignment(expr, need_value=False)
+        else:
+            self.gen_expr(expr, rvalue=True)
         # TODO: issue a warning when expression result is non void?
 
     def gen_if(self, stmt: statements.If) -> None:
@@ -1337,11 +1346,7 @@ class CCodeGenerator:
         ]:
             # Handle struct assignment special case:
             if expr.op == "=" and expr.a.typ.is_struct:
-                lhs = self.gen_expr(expr.a, rvalue=False)
-                rhs = self.gen_expr(expr.b, rvalue=False)
-                amount = self.sizeof(expr.a.typ)
-                self.gen_copy_struct(lhs, rhs, amount)
-                value = None
+                value = self.gen_struct_assignment(expr)
             else:
                 lhs = self.gen_expr(expr.a, rvalue=False)
                 rhs = self.gen_expr(expr.b, rvalue=True)
@@ -1381,6 +1386,25 @@ class CCodeGenerator:
                 self._store_value(value, lhs)
         else:  # pragma: no cover
             raise NotImplementedError(str(expr.op))
+        return value
+
+    def gen_struct_assignment(self, expr, need_value=True):
+        """Generate code for the assignment of a struct or union."""
+        lhs = self.gen_expr(expr.a, rvalue=False)
+        if expr.b.lvalue:
+            rhs = self.gen_expr(expr.b, rvalue=False)
+        else:
+            # For example the value of an assignment or comma expression.
+            rhs = self.gen_expr(expr.b, rvalue=True)
+            if isinstance(rhs, ir.Alloc):
+                rhs = self.emit(ir.AddressOf(rhs, "blob_ptr"))
+        amount = self.sizeof(expr.a.typ)
+        self.gen_copy_struct(lhs, rhs, amount)
+        if need_value:
+            # The value of the assignment is the value of the left operand:
+            value = self._load_value(lhs, expr.a.typ)
+        else:
+            value = None
         return value
 
     def gen_copy_struct(self, dst, src, amount):
